@@ -86,7 +86,7 @@ AmCpu(v, a, S) ==
 Judge(v) ==
   LET s == v.pre  f == v.f IN
   IF ~Inside(s, f) THEN [t |-> v.t, skip |-> "outside", sc |-> "", am |-> <<>>]
-  ELSE LET S == SpecStep(s, f, v.len)
+  ELSE LET S == SpecStep(s, f, v.len, IF v.cpu.sig = 0 THEN <<FromLimbs(v.cpu.r[1], 64), FromLimbs(v.cpu.r[3], 64)>> ELSE <<>>)
            sc == IF S.fault = "UNDEF" THEN "" ELSE SpecCpu(v, S)
        IN IF S.fault = "UNDEF" THEN [t |-> v.t, skip |-> "undefined", sc |-> "", am |-> <<>>]
           ELSE IF sc # "" THEN [t |-> v.t, skip |-> "", sc |-> sc, am |-> <<>>]
